@@ -130,3 +130,123 @@ def _capi_sign(t, impl, expected):
     instant whose magnitude is below 2^64 ns (every instant between 1385 and 1970) has high = -0 = 0 and reads back
     positive. Changing the encoding is an FFI ABI change."""
     return t[0] == "w19_capi_instant" and -(2**64) < int(t[1]) < 0
+
+
+# ---------------------------------------------------------------- parsers (C12): quirks of the `ixdtf` 0.4.0 dependency
+import re as _re
+
+
+def _p_string(t):
+    if not t[0].startswith("p_") or len(t) < 2:
+        return None
+    try:
+        return bytes.fromhex(t[1]).decode("utf8") if t[1] != "-" else ""
+    except Exception:
+        return None
+
+
+_STRICT_ANN = _re.compile(r"^!?[a-z_][a-z0-9_-]*=[A-Za-z0-9]+(-[A-Za-z0-9]+)*$")
+
+
+def _groups(s):
+    return _re.findall(r"\[([^\]]*)\]", s)
+
+
+@region("ixdtf-single-character-annotation-value")
+def _r_single(t, impl, expected):
+    """A key=value annotation whose key is one character long or whose value has a one-character component (`[f=bar]`,
+    `[x=a]`, `[k=a-b-c]`) is rejected although RFC 9557 allows it."""
+    s = _p_string(t)
+    if s is None or not (impl.startswith("err") and expected.startswith("ok")):
+        return False
+    return any("=" in g and (len(g.split("=", 1)[0].lstrip("!")) == 1 or any(len(c) == 1 for c in g.split("=", 1)[1].split("-")))
+               for g in _groups(s))
+
+
+@region("ixdtf-offset-mixed-separators")
+def _r_mixed(t, impl, expected):
+    """A UTC offset that mixes the extended and the basic form (`+07:4421`, `-0800:30`) or ends in a dangling
+    separator (`+02:13:`) is accepted."""
+    s = _p_string(t)
+    if s is None or not (impl.startswith("ok") and expected.startswith("err")):
+        return False
+    return _re.search(r"[+\-\u2212]\d\d:\d\d\d\d|[+\-\u2212]\d\d\d\d:\d\d|[+\-\u2212]\d\d:\d\d:(?!\d)", s) is not None
+
+
+@region("ixdtf-lenient-annotation")
+def _r_lenient(t, impl, expected):
+    """A bracket group that contains `=` but is not a well-formed key=value annotation (a second `=`, a `!` inside, a
+    key with other characters), a second group without `=`, or text after the groups (`[+01:00][u-ca]=x]`) is
+    accepted: the annotation section is not required to be well-formed up to the end of the string."""
+    s = _p_string(t)
+    if s is None or not (impl.startswith("ok") and expected.startswith("err")):
+        return False
+    if any("=" in g and not _STRICT_ANN.match(g) for g in _groups(s)):
+        return True
+    # the annotation section as a whole: an optional time-zone group, then key=value groups, then the end
+    k = s.find("[")
+    if k < 0:
+        return False
+    return _re.match(r"^(\[!?[^\]=\[]+\])?(\[!?[a-z_][a-z0-9_-]*=[A-Za-z0-9]+(-[A-Za-z0-9]+)*\])*$", s[k:]) is None
+
+
+@region("ixdtf-short-form-trailing-text")
+def _r_trailing(t, impl, expected):
+    """The short year-month / month-day readers do not require the annotation section to end the string: text after
+    (or a malformed group inside) the annotations of `2020-04[u-ca=iso8601]x` / `--04-27[...]x` is ignored."""
+    s = _p_string(t)
+    if s is None or t[0] not in ("p_monthday", "p_yearmonth") or not (impl.startswith("ok") and expected.startswith("err")):
+        return False
+    return "[" in s
+
+
+@region("ixdtf-lowercase-zone-annotation")
+def _r_lower(t, impl, expected):
+    """A time-zone annotation whose name starts with a lower-case letter (`[utc]`, `[a-b]`) is taken for a key=value
+    annotation and rejected for its missing `=`."""
+    s = _p_string(t)
+    if s is None or not (impl.startswith("err") and expected.startswith("ok")):
+        return False
+    g = _groups(s)
+    return bool(g) and "=" not in g[0] and _re.match(r"^!?[a-z_]", g[0]) is not None
+
+
+@region("ixdtf-duration-duplicate-designator")
+def _r_dup(t, impl, expected):
+    """A duration that repeats a designator (`P1Y1Y`, `PT1H1H`) is accepted; the last value wins."""
+    s = _p_string(t)
+    if s is None or t[0] != "p_duration" or not (impl.startswith("ok") and expected.startswith("err")):
+        return False
+    m = _re.match(r"^[+\-\u2212]?[Pp]([^Tt]*)(?:[Tt](.*))?$", s)
+    if not m:
+        return False
+    for part in (m.group(1) or "", m.group(2) or ""):
+        letters = [c.upper() for c in part if c.isalpha()]
+        if len(letters) != len(set(letters)):
+            return True
+    return False
+
+
+@region("ixdtf-offset-second-60")
+def _r_off60(t, impl, expected):
+    """A UTC offset with 60 in its seconds field (`-13:52:60`, `-135260`) is accepted."""
+    s = _p_string(t)
+    if s is None or not (impl.startswith("ok") and expected.startswith("err")):
+        return False
+    return _re.search(r"[+\-\u2212]\d\d:?\d\d:?60", s) is not None
+
+
+@region("ixdtf-lenient-zone-name")
+def _r_zone_name(t, impl, expected):
+    """A time-zone annotation whose name has an empty component or a component that does not start with a letter,
+    `.` or `_`, or contains other characters (`[America/New_Yor/]`, `[Europe/+X]`, `[UTC[]`) is accepted."""
+    s = _p_string(t)
+    if s is None or not (impl.startswith("ok") and expected.startswith("err")):
+        return False
+    g = _groups(s)
+    if not g or "=" in g[0]:
+        return False
+    name = g[0].lstrip("!")
+    if name[:1] in "+-\u2212":
+        return False
+    return any((c == "" or not _re.match(r"^[A-Za-z._][A-Za-z0-9._+\-]*$", c)) for c in name.split("/"))
